@@ -38,4 +38,5 @@ PLAN = {
     "C20": [("magma", ["magma/conf.rs"]), ("belt-block", ["belt-block/conf.rs", "belt-block/wblock.rs"])] + _KZ,
     "C03": list(_KZ),
     "C12": list(_KZ),
+    "C04": list(_KZ),
 }
